@@ -9,7 +9,7 @@ RULE = ("for each of the three authentication algorithms (x integrity algorithms
         "a session is returned only if its SIK/K1/K2 equal those of an *active* session of the BMC with the same IDs (so both codes "
         "were the right keyed hashes of what was exchanged); a BMC password mismatch yields exactly ErrIncorrectPassword; status != 0 / "
         "tag != 0 / truncated payload yields an error.  tie: Coq new_session on the delivered bytes predicts session/keys/error class.  "
-        "distinct by (suite, mutation)")
+        "+ sequences of opens on one connection (right / wrong password, same and other user, options value kept or fresh): each open judged on its own.  distinct by (suite, mutation)")
 
 
 def _bits(lo, hi):
@@ -21,6 +21,50 @@ FIELDS = {0: lambda pl: [_bits(8, 12)],
           1: lambda pl: [_bits(4, 8), _bits(8, 24), _bits(24, 40), _bits(40, pl)],
           2: lambda pl: [_bits(8, pl)]}
 NAMED = {ex: (lambda pl, ex=ex: [b for f in FIELDS[ex](pl) for b in f]) for ex in FIELDS}
+
+
+def again(ch, pw):
+    """what an earlier handshake on the same connection leaves behind must not stand in for the password: after a session
+    opened with the right password (closed or not), an open with a wrong password - same user, or another user whose
+    password it is not - must fail with ErrIncorrectPassword; after a failed open with a wrong password the right one opens"""
+    scns = []
+    for k, su in enumerate(hist.SUITES):
+        for reuse in (False, True):
+            other = b"quite another one"
+            bmc = conn.default_bmc(seed=950 + k, suites=[[100, su[0], su[1], su[2]]],
+                                   users=[{"name": "admin", "password": pw.hex(), "maxpriv": 4}, {"name": "guest", "password": other.hex(), "maxpriv": 4}])
+            seqs = [[("admin", pw, True), ("admin", b"incorrect horse", False), ("admin", pw, True)],
+                    [("admin", b"incorrect horse", False), ("admin", pw, True), ("guest", pw, False), ("guest", other, True), ("admin", other, False)]]
+            for seq in seqs:
+                steps = []
+                for j, (u, p, ok) in enumerate(seq):
+                    steps.append(dict(hs.open_step(user=u, password=p, suites=[su]), reuse_opts=reuse, expect_ok=ok))
+                    if ok and (j + k) % 2:
+                        steps.append({"op": "close"})
+                scns.append({"bmc": bmc, "timeout_ms": 40, "steps": steps, "suite": su, "reuse": reuse})
+    for scn, out in zip(scns, conn.run_scenarios(scns)):
+        n = 0
+        for ti, (st, res) in enumerate(zip(scn["steps"], out["steps"])):
+            if st["op"] != "open":
+                continue
+            n += 1
+            desc = {"kind": "c02-again", "suite": list(scn["suite"]), "reuse_opts": scn["reuse"], "nth_open": n}
+            ch.note_case("c02-again", "%s|%s|%d|%s" % (scn["suite"], scn["reuse"], n, st["expect_ok"]))
+            if res.get("panic"):
+                ch.violation(dict(desc, kind="panic"), {"scenario": scn, "step_index": ti, "panic": res["panic"]}); break
+            if st["expect_ok"]:
+                b = hs.bmc_session_for(out, res) if res["err"] == "nil" else None
+                if res["err"] != "nil":
+                    ch.violation(desc, {"scenario": scn, "step_index": ti, "what": "open %d with the right password failed: %s" % (n, res.get("errtext"))}); break
+                s = res["session"]
+                if b is None or not b["active"] or (s["sik"], s["k1"], s["k2"]) != (b["sik"], b["k1"], b["k2"]):
+                    ch.violation(desc, {"scenario": scn, "step_index": ti, "what": "open %d returned a session the BMC did not authenticate" % n}); break
+            else:
+                if res["err"] == "nil":
+                    ch.violation(desc, {"scenario": scn, "step_index": ti, "what": "open %d returned a session although the password is not the BMC's for user %s "
+                                        "(an earlier handshake on this connection used the right one)" % (n, st["user"])}); break
+                if res["err"] != "ErrIncorrectPassword":
+                    ch.violation(desc, {"scenario": scn, "step_index": ti, "what": "open %d with a wrong password must yield ErrIncorrectPassword, got %s (%s)" % (n, res["err"], res.get("errtext"))}); break
 
 
 def run(ch, build):
@@ -118,6 +162,7 @@ def run(ch, build):
             b = hs.bmc_session_for(out, res)
             if b is None or not b["active"] or out["steps"][1]["err"] != "nil":
                 ch.violation(desc, {"scenario": scn, "what": "NewSession returned a session the BMC did not authenticate"})
+    again(ch, pw)
     outs = conn.run_scenarios(scns)
     lines = []
     for scn, out in zip(scns, outs):
